@@ -198,6 +198,9 @@ class SeparateFiles(Contract):
     def apply_at_call(self, I, fn, args, kwargs):
         """recursive call (induction hypothesis: the argument is a proper sub-term): the bookkeeping invariant must hold for the
         state it is called in; result = nulled(argument); the state it leaves is after(path, argument, state) and satisfies the invariant"""
+        if getattr(I.p, "in_comprehension", False):
+            from pyvc.interp import Unsupported
+            raise Unsupported("a call that changes the bookkeeping state inside a comprehension (the comprehension rule covers pure element expressions)")
         names = self.call_names(fn, args, kwargs, I)
         path, obj = V.lower(names["path"]), V.lower(names["obj"])
         from pyvc.contract import Args
